@@ -182,10 +182,13 @@ def gen_deck(rng, flavour=None):
         tags.append('trsurf-ids')
         # cells referencing 1000*cell+surf ids (positive sense only: the
         # converter does not recognise the negative ones, DESIGN §8 #4)
+        many = rng.random() < 0.35
+        if many:
+            tags.append('trsurf-many')
         for _ in range(rng.randint(1, 3)):
             cid += 1
             refs = []
-            for _ in range(rng.randint(1, 5)):
+            for _ in range(rng.randint(8, 20) if many else rng.randint(1, 5)):
                 refs.append(str(1000 * rng.choice(trcl_cells)
                                 + rng.choice(sids)))
             others = lits_for(rng.sample(sids, 2))
@@ -351,3 +354,72 @@ def corpus_jobs(repo):
         jobs.append({'deck': text, 'args': opts, 'encoding': enc,
                      'tags': ['corpus', path.name]})
     return jobs
+
+
+# hand-written regression decks, run first by the tie and the sweep: each
+# reaches a piece of state or an ordering the generators reach only sometimes
+REGRESSION = [
+    # an empty filler cell referenced twice: convert_cellref caches None, which
+    # is not a cache hit, so the cell is converted (and the counter advanced)
+    # again; the written file holds "INTE 1 None" (DESIGN 8 #7)
+    ('empty-cellref-twice', """empty filler used twice
+1 0 -1 fill=1 imp:n=1
+2 0 1 -3 fill=1 imp:n=1
+10 0 -2 2 u=1 imp:n=1
+11 0 #10 u=1 imp:n=1
+3 0 3 imp:n=0
+
+1 so 1
+2 px 0
+3 so 5
+
+""", []),
+    # 1000*cell+surf ids of one-nappe cones, many of them, cells out of order:
+    # the int-set iteration order decides the auxiliary surface ids
+    ('trsurf-cones-many', """tr surf ids on cones
+7 0 -1 2 imp:n=1 trcl=(1 0 0)
+3 0 -2 imp:n=1 trcl=(0 2 0)
+9 0 1 -3 imp:n=1 trcl=(0 0 3)
+5 0 7001 7002 3001 3002 9001 9002 9003 3003 7003 imp:n=1
+6 0 9002 : 3001 : 7003 : 3002 imp:n=1
+8 0 3 imp:n=0
+
+1 kz 0 1 1
+2 kz 1 0.5 -1
+3 so 9
+
+""", []),
+    # union whose largest pure intersection comes second, nested unions,
+    # repeated and opposite literals (patently empty branch)
+    ('union-largest-second', """union shapes
+1 0 (-1 : 2 -3 4 : (5 -5) : -2 3) imp:n=1
+2 0 (1 -2 : -4) (3 : -5 : 1 -2) imp:n=1
+3 0 1 -1 : 2 imp:n=1
+4 0 5 imp:n=0
+
+1 px 1
+2 py 2
+3 pz 3
+4 so 4
+5 so 9
+
+""", ['--skip-deduplication']),
+    # duplicate surfaces, an RPP with facets, de-duplication on
+    ('dedup-facets', """duplicates and facets
+1 0 -1 2.1 -3 imp:n=1
+2 0 -2.3 : 4 -5 imp:n=1
+3 0 5 imp:n=0
+
+1 px 1
+2 rpp -1 1 -2 2 -3 3
+3 px 1
+4 py 2
+5 so 9
+
+""", []),
+]
+
+
+def regression_jobs():
+    return [{'deck': text, 'args': list(args), 'tags': ['regression', name]}
+            for name, text, args in REGRESSION]
